@@ -1,7 +1,7 @@
 from __future__ import annotations
 
-import codecs
 import configparser
+import io
 import os.path
 import re
 import shelve
@@ -364,7 +364,10 @@ class VFSZip(VFS_Real):
         fp = self.zip.open(item)
         if mode == "r":
             # Attempted to read in "text mode", so decode the bytestream
-            fp = codecs.getreader("utf-8")(fp, errors=errors)
+            # the way open() does for a file on disk: a codecs reader
+            # would break lines at form feeds and other separators too
+            # and take no readlines() hint.
+            fp = io.TextIOWrapper(fp, encoding="utf-8", errors=errors)
 
         return fp
 
